@@ -5,9 +5,43 @@ from . import core, runner
 TIERS = {'quick': {'runs': 20000}, 'thorough': {'runs': 1500000}}
 CHILD_TIMEOUT = 60.0
 
+def _pristine_decode(bhex, mode):
+    from . import sim_stream as SS
+    return list(SS.outcome(lambda: SS.view(SS.dis_bytes(bytes.fromhex(bhex), mode))))
+
+def _px_factory():
+    # runs in a servant forked from the run's child BEFORE its first decode: a pristine copy that never
+    # decodes itself; every request is served by a throw-away fork of it
+    def handler(req):
+        c = core.fork_call(_pristine_decode, (req['b'], req['mode']), 30.0)
+        return c.value if c.status == 'ok' else None
+    return handler
+
 def _child(image_hex, ops):
     from . import sim_stream as SS
-    v, stats = SS.run_ops(bytes.fromhex(image_hex), ops)
+    srv = [None]
+    memo = {}
+    def pristine(b, mode, more):
+        """Decode of (at most 16) bytes in a PRISTINE process, memoised per run."""
+        key = (b.hex(), mode)
+        r = memo.get(key)
+        if r is None:
+            c = srv[0].call({'b': b.hex(), 'mode': mode})
+            if c.status != 'ok' or c.value is None:
+                return None
+            r = memo[key] = tuple(c.value)
+        if more and r[0] == 'ok' and r[1] is None:
+            return None          # 'absent' on a 16-byte prefix says nothing about the longer suffix
+        return r
+    use_px = any(op.get('px') for op in ops)
+    if use_px:
+        srv[0] = core.Servant(_px_factory, 60.0)
+    try:
+        v, stats = SS.run_ops(bytes.fromhex(image_hex), ops, pristine if use_px else None)
+    finally:
+        if srv[0] is not None:
+            srv[0].kill()
+            srv[0].close()
     return {'v': v, 'stats': stats}
 
 def plan(i, seed):
@@ -134,6 +168,8 @@ def main(args):
         'decodes_none': total.get('decode-none', 0),
         'faults_fired': {'eof@k (truncated decode)': total.get('eof-fired', 0), 'eof@open (truncate-and-reopen)': total.get('eof-open', 0),
                          'eio@n': total.get('eio-fired', 0), 'start@>=len': total.get('start-beyond-end:ioerror', 0)},
+        'pristine_process_crosschecks': total.get('pristine-checked', 0),
+        'shared_file_handle_reopens': total.get('handle-reused', 0),
         'cut_position_classes_covered': len(cut_fields),
         'out_of_scope_observations': {'totality defects seen on arbitrary bytes (pure-input clause, not decided here)': oos},
         'samples': samples,
